@@ -498,7 +498,7 @@ PROP = dict(
     theorems=["blake_counter_exact", "blake_counter_streaming", "blake_streaming_conforms", "blake_conforms_all_lengths",
               "blake_carry_exact", "blake_debug_check_at_limit",
               "groestl_counter_exact", "groestl_counter_init", "groestl_final_count_exact",
-              "groestl_conforms_all_lengths_partial", "groestl_debug_check_at_limit",
+              "groestl_conforms_all_lengths_partial", "groestl_conforms_all_lengths", "groestl_debug_check_at_limit",
               "jh_datalen_exact", "jh_datalen_exact_step", "jh_serialised_len_exact", "jh_debug_check_at_limit",
               "jh_conforms_all_lengths",
               "skein_position_exact", "skein_final_position", "skein_process_block_position",
